@@ -113,6 +113,8 @@ class Gen:
                     self.emit("m %s %d %d %s" % (r.choice(["updatefn", "erasefn"]), tid, self.key(universe), r.choice(fns)))
                 else:
                     self.emit("m find %d %d" % (tid, self.key(universe)))
+            elif prof == "objects" and r.random() < 0.12:
+                self.objects_op(universe)
             elif prof == "locked" and r.random() < 0.1:
                 self.emit("m lock %d" % tid)
                 self.locked[tid] = True
@@ -169,6 +171,52 @@ class Gen:
         self.emit("m digest 0")
         self.emit("m stats 0")
         return self.lines
+
+    def objects_op(self, universe):
+        """copy / move / swap between table 0 and tables 3,4 followed by work on all of them (C11)"""
+        r = self.rng
+        y = r.random()
+        other = r.choice([3, 4])
+        if not self.live.get(other):
+            self.emit("m new %d %d" % (other, r.choice([0, 2, 8, 40])))
+            self.live[other] = True
+            for _ in range(r.randrange(0, 10)):
+                self.emit("m insert %d %d %d" % (other, self.key(universe), r.randrange(1000)))
+        if y < 0.3:
+            self.emit("m copy %d 0" % other)                  # copy-assign 0 into other
+        elif y < 0.45:
+            self.emit("m copy 0 %d" % other)
+        elif y < 0.75:
+            self.emit("m swap 0 %d" % other)
+        elif y < 0.9:
+            self.emit("m move 5 0")                           # move-construct (slot 5 is always empty before)
+            self.emit("m digest 5")
+            self.emit("m inv 5")
+            self.emit("m copy 0 5")                           # copy-assign onto the moved-from object
+            self.emit("m move %d 5" % other)                  # move-assign
+            self.emit("m new 5 0")
+            self.emit("m move 6 5")                           # leave 5 and 6 in a defined state for the next round
+            self.emit("m new 5 0")
+            self.emit("m move 7 5")
+        else:
+            self.emit("m move %d 0" % other)
+            self.emit("m copy 0 %d" % other)
+        for t in (0, other):
+            self.emit("m digest %d" % t)
+            self.emit("m inv %d" % t)
+            self.emit("m stats %d" % t)
+        for _ in range(r.randrange(2, 8)):
+            t = r.choice([0, other])
+            z = r.random()
+            if z < 0.5:
+                self.emit("m insert %d %d %d" % (t, self.key(universe), r.randrange(1000)))
+            elif z < 0.75:
+                self.emit("m erase %d %d" % (t, self.key(universe)))
+            else:
+                self.emit("m find %d %d" % (t, self.key(universe)))
+        for t in (0, other):
+            self.emit("m digest %d" % t)
+            self.emit("m inv %d" % t)
 
     def locked_op(self, tid, universe):
         r = self.rng
@@ -311,6 +359,24 @@ class RefMap:
             self.locked[tid] = False
             self.mlf[tid] = MLF_DEFAULT
             self.mhp[tid] = NOMAX
+            return
+        if op in ("copy", "move", "swap"):
+            src = int(w[2])
+            if got != "ok":
+                if not got.startswith("bad-table"):
+                    self.fail("C11", i, line, got, "copy/move/swap failed")
+                return
+            if op == "copy":
+                self.maps[tid] = dict(self.maps.get(src, {}))
+                self.mlf[tid], self.mhp[tid] = self.mlf.get(src), self.mhp.get(src)
+            elif op == "move":
+                self.maps[tid] = self.maps.pop(src, {})
+                self.mlf[tid], self.mhp[tid] = self.mlf.get(src), self.mhp.get(src)
+            else:
+                self.maps[tid], self.maps[src] = self.maps.get(src, {}), self.maps.get(tid, {})
+                self.mlf[tid], self.mlf[src] = self.mlf.get(src), self.mlf.get(tid)
+                self.mhp[tid], self.mhp[src] = self.mhp.get(src), self.mhp.get(tid)
+            self.locked[tid] = False
             return
         m = self.maps.get(tid)
         if m is None:
